@@ -4,7 +4,7 @@ A  Props/C17.v over the REGENERATED Pos()/End() bodies (K-gen: Gen/AstPos.v from
    ast/ast.go + ast/ast_gop.go and, for the aliased Comment/CommentGroup, GOROOT go/ast; Gen/Tokens.v):
    C17_span_table_ok (vm_compute obligation: every body against its layout template under every valuation
    of the atomic conditions), C17_span_exact (unbounded trees), C17_children_nested_ordered,
-   C17_span_refuted_ValueSpecTag.
+   C17_span_ValueSpecTag.
 B  K-diff: the extracted interpreter of the generated bodies (pe) vs the real Pos()/End() methods on EVERY
    node of every parsed corpus file and of generated files (File.End, a loop, is modelled by hand; its
    normalised source is hash-checked).
@@ -27,8 +27,8 @@ CLAIM = {
     "note": "Modelled, not verified: the Pos/End bodies as an interpreted table (translator/gen_astpos.go; File.End by "
             "hand, hash-checked); tied by comparing Pos()/End() of every node with the extracted interpreter. Templates "
             "are hand-written from the grammar comments (Model/C17.v). Theorem gaps stated in Props/C17.v: File, parser "
-            "position recording, re-parse. Known findings (known_findings.d/C17.txt): c\"...\"/py\"...\" literals, classfile "
-            "field tags (also refuted in the model: C17_span_refuted_ValueSpecTag), matrix literal re-parse, command-style "
+            "position recording, re-parse. Known findings (known_findings.d/C17.txt): c\"...\"/py\"...\" literals, "
+            "matrix literal re-parse, command-style "
             "call end, indexed slice literal. Excluded by the Reading: synthesised entry of script files and package "
             "name, nodes inside ${} / domain-text arguments, non-existent FieldLists, implicit semicolons, comments, "
             "FuncDecl.Type starting at 'func' (go/ast convention), command-style calls and operator names for re-parse.",
@@ -45,6 +45,46 @@ WITNESSES = [
     b"for {\nL:\n}\n",                        # R6  label before "}": the implicit empty statement
     b"switch x {\ncase 1:\nL:\n}\n",          # R6
 ]
+
+CHAN_DIRS = ("chan ", "<-chan ", "chan<- ")
+
+
+def chan_type(dirs, elem="int"):
+    """outermost direction first; `chan` directly before `<-chan` needs parentheses"""
+    t = elem
+    for d in reversed(dirs):
+        t = "chan (" + t + ")" if d == "chan " and t.startswith("<-") else d + t
+    return t
+
+
+def chan_witnesses():
+    """every channel type of depth 1-3 with every direction combination (39 types), in type and in
+    expression positions: one deterministic source per position"""
+    import itertools
+    types = [chan_type(ds) for n in (1, 2, 3) for ds in itertools.product(CHAN_DIRS, repeat=n)]
+    positions = [
+        "v%d := make(%s)", "w%d := (%s)(nil)", "var u%d %s", "f%d := func(a %s) %s { return nil }", "s%d := []%s{}",
+        "t%d := x.(%s)", "m%d := map[string]%s{}", "echo make(%s, %d)", "g%d := f(%s)(nil)", "type T%d struct {\n\tC %s\n}",
+        "func h%d(a, b %s, c ...%s) (r %s) {\n\treturn\n}", "n%d := new(%s)",
+    ]
+    out = []
+    for p in positions:
+        lines = []
+        for i, t in enumerate(types):
+            k = p.count("%s")
+            if p.startswith("echo"):
+                lines.append(p % (t, i))
+            else:
+                lines.append(p % ((i,) + (t,) * k))
+        out.append(("\n".join(lines) + "\n").encode())
+    return out
+
+
+# node kinds an error-free parse cannot produce
+NOT_PRODUCIBLE = ("Package", "BadExpr", "BadStmt", "BadDecl")
+# kinds the generator must not produce (known findings, explored through the corpus): matrix literals (R3)
+GEN_EXCLUDED = ("MatrixLit", "ElemEllipsis")
+
 # sha of the normalised source of File.End, which Model/C17.v models by hand
 FILE_END_SHA = None
 
@@ -59,17 +99,14 @@ def corpus_files(repo):
     return out
 
 
-def private_json(ctx, gens):
-    """The translator's JSON side copies, regenerated into this run's scratch directory
-    (build/gen is shared between concurrent runs, also with private worktrees)."""
-    import json
-    d = os.path.join(ctx.scratch, "genjson")
-    rc, out = ctx.run([os.path.join(vlib.BIN, "translator"), "-repo", vlib.REPO, "-out", os.path.join(ctx.scratch, "genv"),
-                       "-json", d] + list(gens), cwd=vlib.REPO, timeout=300)
-    if rc != 0:
-        ctx.broken("translator(%s)" % ",".join(gens), out[-800:])
-        return None, d
-    return {g: json.load(open(os.path.join(d, g + ".json"))) for g in gens}, d
+def gen_json(ctx, name, ok):
+    """JSON side copy of a generator (build/gen<PTAG>, private per worktree); None if the translator failed"""
+    if not ok:
+        return None
+    try:
+        return ctx.gen_json(name)
+    except Exception:
+        return None
 
 
 def run(ctx):
@@ -77,9 +114,10 @@ def run(ctx):
     ctx.prove("C17")
     model = ctx.model("c17")
     impl = ctx.harness("c17")
-    js, jdir = private_json(ctx, ["astpos"])
+    jst = gen_json(ctx, "aststructs", True)
+    js_kinds = jst["node_order"] if jst else []
     # without the static bodies the run is already broken; the K-diff and the span oracle still search
-    pj = js["astpos"] if js else {"unparsed": ["<translator failed>"], "bodies": {}}
+    pj = gen_json(ctx, "astpos", gen_ok) or {"unparsed": ["<translator failed>"], "bodies": {}}
     # the only body outside the translated fragment must be File.End, and it must be the one modelled by hand
     unparsed = [u.split(":")[0] for u in pj["unparsed"]]
     src = (pj["bodies"].get("File", {}).get("End") or {}).get("src", "")
@@ -90,8 +128,9 @@ def run(ctx):
                              "unparsed bodies: %s; File.End source: %s" % (unparsed, src[:300]))
 
     files = corpus_files(vlib.REPO)
-    cases = ["src\t" + w.hex() for w in WITNESSES] + ["file\t" + p for p in files]
-    ngen = ctx.n(800, 40000)
+    wit = WITNESSES + chan_witnesses()
+    cases = ["src\t" + w.hex() for w in wit] + ["file\t" + p for p in files]
+    ngen = ctx.n(600, 40000)
     cases += ["gen\t%d" % (ctx.rng.next() % (1 << 62)) for _ in range(ngen)]
     rc, out = ctx.run([impl, "run"], input="\n".join(cases) + "\n", timeout=600)
     if rc != 0:
@@ -131,6 +170,7 @@ def run(ctx):
     hist = {"file": 0, "file-parse-errors": 0, "gen": 0, "gen-parse-errors": 0, "gen-damaged": 0, "src": 0, "src-parse-errors": 0, "noparse": 0}
     distinct = set()
     nfind = 0
+    kinds_by = {}
     for i, r in enumerate(res):
         what = cases[i].split("\t")[0]
         info = r[3] if len(r) > 3 else ""
@@ -146,6 +186,12 @@ def run(ctx):
                     nodes += int(v)
                 else:
                     stats[k] = stats.get(k, 0) + int(v)
+        if "parse-errors" not in info and "damaged" not in info and len(r) > 4:
+            kh = kinds_by.setdefault(what, {})
+            for kv in r[4].split(","):
+                if "=" in kv:
+                    k, v = kv.split("=")
+                    kh[k] = kh.get(k, 0) + int(v)
         if r[2] != "ok":
             for f in r[2].split(";"):
                 a, w, detail = (f.split("|", 2) + ["", ""])[:3]
@@ -155,13 +201,30 @@ def run(ctx):
                 key = "%s:%s:%s" % (ident, a, w)
                 nfind += 1
                 ctx.fail(key, "%s: %s %s: %s" % (rel(cases[i]), a, w, detail[:300]), {"case": rel(cases[i]), "finding": f})
+    # every node kind an error-free parse can produce must have been explored (oracle + K-diff), and the
+    # generator must reach every kind it is allowed to produce
+    all_kinds = js_kinds
+    total = {}
+    for kh in kinds_by.values():
+        for k, v in kh.items():
+            total[k] = total.get(k, 0) + v
+    missing_total = [k for k in all_kinds if k not in NOT_PRODUCIBLE and total.get(k, 0) == 0]
+    gen_h = kinds_by.get("gen", {})
+    missing_gen = [k for k in all_kinds if k not in NOT_PRODUCIBLE + GEN_EXCLUDED and gen_h.get(k, 0) == 0]
+    ctx.check_gen_obligation("every parser-producible node kind explored", not missing_total and not missing_gen,
+                             "kinds never seen in an error-free tree: %s; kinds the generator never produced: %s" % (missing_total, missing_gen))
     ctx.cover(evaluations=len(cases), distinct_nontrivial=len(distinct),
               samples=[{"case": rel(cases[i]), "verdict": res[i][2][:200], "info": res[i][3]} for i in (0, len(files) // 2, len(cases) - 1)],
-              rule="every corpus file under /repo (%d: %s; .go parsed as XGo) + %d generated XGo files (grammar-based: slice/map literals, "
+              rule="%d fixed witnesses (root causes R1,R4,R6; every channel type of depth 1-3 x every direction combination x 12 type/expression "
+                   "positions) + every corpus file under /repo (%d: %s; .go parsed as XGo) + %d generated XGo files (grammar-based, every producible node kind: "
+                   "channel types in type and expression position, slice/map literals, "
                    "lambdas, error wrapping, ranges, comprehensions, env expressions, units, interpolation, command calls, statements; ~10%% "
-                   "damaged; NOT generated, known findings explored through the corpus: c/py string literals, classfile tags, matrix literals, "
-                   "command call + blank + '}', indexed slice literals); non-trivial = distinct exported tree" % (len(files), ",".join(EXTS), ngen),
-              nodes_compared=nodes, oracle_stats=stats, input_shape_histogram=hist, oracle_findings=nfind,
+                   "damaged; NOT generated, known findings explored through the corpus: c/py string literals, matrix literals, "
+                   "command call + blank + '}', indexed slice literals); non-trivial = distinct exported tree" % (len(wit), len(files), ",".join(EXTS), ngen),
+              nodes_compared=nodes, oracle_stats=stats, node_kind_histogram_generated=dict(sorted(gen_h.items())),
+              node_kind_histogram_corpus=dict(sorted(kinds_by.get("file", {}).items())),
+              node_kind_histogram_witnesses=dict(sorted(kinds_by.get("src", {}).items())),
+              kinds_not_producible=list(NOT_PRODUCIBLE), kinds_not_generated=list(GEN_EXCLUDED), input_shape_histogram=hist, oracle_findings=nfind,
               static_gen="ok" if gen_ok else "unparsed", unparsed_bodies=unparsed)
     ctx.trust("modelled, not verified: the Pos()/End() methods as the interpreter Model/C17.v:pe over the generated bodies; File.End modelled by hand",
               "the span oracle uses the real scanner (scanner.Scanner) for token boundaries and parser.ParseExpr for the re-parse clause",
